@@ -717,6 +717,11 @@ func (e *Env) call(n *CNode) Val {
 			}
 		}
 		cxFail("local(%s): no such memory-resident local", nm)
+	case "as":
+		// as(x, "*pkg.T"): reinterpret the reference x as a pointer of the given type (ghost references)
+		v := e.expr(n.Args[0])
+		T, _ := e.resolveType(n.Args[1].Name)
+		return Val{t: v.t, ty: T}
 	case "cast":
 		// cast(x, "*pkg.T"): the value of interface x as dynamic type *pkg.T (use together with typeIs)
 		v := e.expr(n.Args[0])
